@@ -153,6 +153,12 @@ def norm(t):
             return ('agg', ('adt', 'core::marker::PhantomData', 0, 'PhantomData'), ())      # the one value of a zero-sized marker
         a = norm(t[2][0])
         return a[1] if a[0] == 'refval' else ('deref', a)       # cloning a Copy value is copying it
+    if h == 'app' and len(t) == 4 and isinstance(t[1], str) and t[3] and t[1] not in CONV_APPS:
+        # a trait method named by the impl it resolved to, or by the trait when the call stayed generic (inside a blanket
+        # impl such as `&A == &B`): the trait, the method and the type arguments determine the impl (coherence)
+        m = _IMPL_PATH.match(t[1])
+        if m:
+            return norm(('app', '%s::%s' % (m.group('tr') or m.group('tr2'), m.group('m')), t[2], t[3]))
     if h == 'app' and len(t) == 4 and t[1] in CONV_APPS and len(t[2]) == 1 and isinstance(t[3], tuple):
         # the four spellings of one sample conversion (no Sample impl overrides the provided methods: C03 sample.no-override;
         # the blanket ToSample impl forwards to FromSample: C01 dispatch.generic) -- one canonical application
@@ -170,6 +176,7 @@ def norm(t):
     return tuple(norm(x) for x in t)
 
 
+_IMPL_PATH = re.compile(r"^(?:.*<impl (?P<tr>core::(?:cmp::Partial(?:Eq|Ord)|cmp::Ord|ops::arith::\w+|ops::bit::\w+))(?:<.*>)? for .*>|<.* as (?P<tr2>core::(?:cmp::Partial(?:Eq|Ord)|cmp::Ord|ops::arith::\w+|ops::bit::\w+))(?:<.*>)?>)::(?P<m>\w+)$")
 _COPY_CLONE = re.compile(r'^(core::clone::impls::<impl core::clone::Clone for (&T|\*const T|\*mut T|[a-z0-9]+|!)>::clone|<core::marker::PhantomData<T> as core::clone::Clone>::clone)$')
 COPY_TYPES = ('usize', 'isize', 'u8', 'u16', 'u32', 'u64', 'u128', 'i8', 'i16', 'i32', 'i64', 'i128', 'f32', 'f64', 'bool', 'char', '()')
 CONV_APPS = {'dasp_sample::Sample::to_sample': 'to', 'dasp_sample::conv::ToSample::to_sample_': 'to',
@@ -367,6 +374,10 @@ def expand_closures(facts, p, t, table, depth, evmap=None):
                     # only what the callable itself writes
                     cp['writes'] = {loc: v for loc, v in cp['writes'].items() if store.get(loc) != v}
                 table['paths'][cid] = [canon_path(facts, cp, table, depth + 1, skip=len(outer_events), outer=evmap) for cp in cps]
+                if _returns_unit(facts, body):
+                    for cp in table['paths'][cid]:
+                        if cp['ret'] is not None:
+                            cp['ret'] = tl(T.UNIT)
             except (T.TooComplex, RecursionError, KeyError, IndexError, TypeError, AssertionError):
                 table['paths'][cid] = [{'conds': [], 'events': [['unsummarisable', key]], 'writes': [], 'ret': None, 'end': 'return'}]
             return ('#clo', cid)
@@ -536,7 +547,16 @@ def summarize(facts, fn, max_paths=300, shallow=False):
     ctx.update(type_context(facts, body).encode())
     table = {'ids': {}, 'paths': [], 'root': body['hash'], 'shallow': shallow}
     cps = [canon_path(facts, p, table) for p in paths]
+    if _returns_unit(facts, body):
+        for cp in cps:
+            if cp['ret'] is not None:
+                cp['ret'] = tl(T.UNIT)      # the one value of `()`, whichever expression produced it
     return {'ctx': ctx.hexdigest()[:16], 'paths': cps, 'closures': table['paths']}
+
+
+def _returns_unit(facts, body):
+    t = facts.ty(body['locals'][0])
+    return t.get('k') == 'tuple' and not t.get('elems')
 
 
 # ------------------------------------------------------------------ comparison
